@@ -444,7 +444,7 @@ def rule_writers(fx, rep):
 
 def cond_eval(e, env):
     """Evaluate a branch condition of should_overwrite_with under an abstract environment
-    env = {age_differs: bool, depth_rel: 'lt'|'eq'|'gt' (new vs old), new_exact: bool, old_exact: bool}.
+    env = {age_rel: 'lt'|'eq'|'gt' (new vs old; the counter wraps, so both orders occur), depth_rel: 'lt'|'eq'|'gt' (new vs old), new_exact: bool, old_exact: bool}.
     Returns True/False, or None when the condition is not one of the recognised comparisons."""
     co = cmp_op(e)
     if co is None:
@@ -462,8 +462,12 @@ def cond_eval(e, env):
     if sa is None or sb is None:
         return None
     pair = {sa, sb}
-    if pair == {("self", "age"), ("new", "age")} and op in ("Eq", "Ne"):
-        return env["age_differs"] == (op == "Ne")
+    if pair == {("self", "age"), ("new", "age")} and op in ("Eq", "Ne", "Gt", "Lt", "Ge", "Le"):
+        # the age is a wrapping search counter: a different age may compare either way
+        rel = env["age_rel"]  # new vs old
+        if sa == ("self", "age"):
+            rel = {"lt": "gt", "gt": "lt", "eq": "eq"}[rel]
+        return {"Eq": rel == "eq", "Ne": rel != "eq", "Gt": rel == "gt", "Lt": rel == "lt", "Ge": rel in ("gt", "eq"), "Le": rel in ("lt", "eq")}[op]
     if pair == {("self", "depth"), ("new", "depth")} and op in ("Eq", "Ne", "Gt", "Lt", "Ge", "Le"):
         rel = env["depth_rel"]  # new vs old
         if sa == ("self", "depth"):  # a is old: flip to "new op' old"
@@ -538,19 +542,20 @@ def rule_pref(fx, rep):
         return "?"
 
     table = {}
-    for ad, dr, ne, oe in itertools.product([False, True], ["lt", "eq", "gt"], [False, True], [False, True]):
-        env = {"age_differs": ad, "depth_rel": dr, "new_exact": ne, "old_exact": oe}
-        table[(ad, dr, ne, oe)] = run_abstract(env)
+    for ar, dr, ne, oe in itertools.product(["lt", "eq", "gt"], ["lt", "eq", "gt"], [False, True], [False, True]):
+        env = {"age_rel": ar, "depth_rel": dr, "new_exact": ne, "old_exact": oe}
+        table[(ar, dr, ne, oe)] = run_abstract(env)
     n = len(table)
-    rep.sample({"rule": "C19-PREF", "decision_table": {f"age_differs={k[0]},depth={k[1]},new_exact={k[2]},old_exact={k[3]}": r for k, r in table.items()}})
+    rep.sample({"rule": "C19-PREF", "decision_table": {f"age={k[0]},depth={k[1]},new_exact={k[2]},old_exact={k[3]}": r for k, r in table.items()}})
     if any(r == "?" for r in table.values()):
         rep.notes.append("C19-PREF: replacement predicate not reducible to comparisons of age, depth and exactness; clause not decided")
         rep.rule("C19-PREF", 0, 0, True, "replacement predicate not in recognisable form: clause not decided")
         return
-    for (ad, dr, ne, oe), res in table.items():
+    for (ar, dr, ne, oe), res in table.items():
+        ad = ar != "eq"
         good, why = True, ""
         if ad and res is not True:
-            good, why = False, "an entry from an earlier search does not give way to a new one"
+            good, why = False, "an entry from an earlier search does not give way to a new one" + (" (the 8-bit search counter wraps: after 256 searches the newer search has the smaller age)" if ar == "lt" else "")
         if not ad and oe and not ne and dr != "gt" and res is not False:
             good, why = False, "within one search an exact entry is displaced by a non-exact entry that is not deeper"
         if not ad and ne and res is not True:
@@ -560,10 +565,10 @@ def rule_pref(fx, rep):
         rep.obligation(good)
         if not good:
             ok = False
-            rep.violation("C19-PREF", f"C19-PREF/age_differs={ad}/depth={dr}/new_exact={ne}/old_exact={oe}",
-                          f"replacement predicate for (age differs={ad}, new depth {dr} old, new exact={ne}, old exact={oe}) returns {res}: {why}",
+            rep.violation("C19-PREF", f"C19-PREF/age={ar}/depth={dr}/new_exact={ne}/old_exact={oe}",
+                          f"replacement predicate for (new age {ar} old age, new depth {dr} old, new exact={ne}, old exact={oe}) returns {res}: {why}",
                           {"fn": b.name, "file": b.file, "line": b.line})
-    rep.rule("C19-PREF", n, 24, ok, "decision table of should_overwrite_with over age / depth order / exactness")
+    rep.rule("C19-PREF", n, 36, ok, "decision table of should_overwrite_with over age / depth order / exactness")
 
 
 TTF = "src/engine/transposition_table.rs"
@@ -594,6 +599,8 @@ MUTANTS = [
      "edits": [("src/engine/search/mod.rs", "    ctx.tt.new_generation();", "    ctx.tt.generation = ctx.tt.generation.wrapping_add(1);")]},
     {"name": "exact entries displaced by shallower bounds", "expect": "C19-PREF",
      "edits": [(STT, "        // Don't overwrite exact nodes\n        self.bound != NodeBound::Exact", "        // Don't overwrite exact nodes\n        self.bound == NodeBound::Exact")]},
+    {"name": "ages compared with > although the counter wraps (seed C19-1)", "expect": "C19-PREF/age=lt",
+     "edits": [(STT, "        if new.age != self.age {", "        if new.age > self.age {")]},
     {"name": "old-search entries kept when deeper", "expect": "C19-PREF",
      "edits": [(STT, "        if new.age != self.age {\n            return true;\n        }", "        if new.age != self.age && new.depth >= self.depth {\n            return true;\n        }")]},
     {"name": "benign: get via early-return style", "benign": True,
